@@ -246,6 +246,7 @@ package hsrv
 //@   on call netip.ParseAddrPort(x) (p, e): if nParse == 0 { assert(x == s.l.Addr().String(), "bound_address_is_parsed") }; nParse++
 //@   on call strconv.Itoa(n) (v): assert(nPort == 0 && n == int(ap.Port()), "port_text_is_the_bound_port"); portv = v; nPort++
 //@   on enter net.JoinHostPort(h, p): assert(nPort == 1 && p == portv && p == port, "added_port_is_the_bound_port")
+//@   on enter sortAddresses(as): assert(imp(!ap.Addr().IsUnspecified(), len(as) >= 1 && as[len(as)-1] == ap.String()), "specific_bound_address_is_listed_in_host_port_form")
 //@   ghost lastA string = ""
 //@   ghost lastHas bool = false
 //@   on call net.SplitHostPort(x) (h, p, e): lastA = x; lastHas = (p != "" && e == nil)
